@@ -2,6 +2,9 @@
   leaveAtEnd : does shape()/shape_with_plan() give the buffer its default limits back when the buffer was EMPTY?
                (probe: shape an empty buffer, GlyphBuffer::clear, push_str of 20 000 chars, look at len())
   randomSeed : random_state of a fresh apply context (hook verif::gsubgpos::random_sequence).
+  randomSeedRecycled : random_state of an apply context created on a public buffer that has been through two shape() calls which
+               drew 9 alternates through the `rand` feature (probe font: T -> one of three alternates) and was recycled with
+               GlyphBuffer::clear() after each (hook verif::gsubgpos::random_sequence_on)
 and one reading of the sources plus one behavioural probe for "clear() gives a fresh buffer":
   bufferFields     : the field names of `pub struct hb_buffer_t` in src/hb/buffer.rs, in order (parsed on every run; the
                      model's `Life.Field` must list exactly these)
@@ -54,8 +57,32 @@ def probe_font():
     return os.path.join(d, sorted(f for f in os.listdir(d) if f.endswith(".ttf"))[0])
 
 
+def rand_probe_font():
+    """T -> AlternateSubst {3, 4, 5} under `rand`; the control shaping must show a drawn alternate"""
+    import fontbuild
+    rec = {"num_glyphs": 6, "cmap": {0x54: 1, 0x20: 2}, "advances": [500, 510, 520, 530, 540, 550],
+           "gsub": {"features": [{"tag": "rand", "lookups": [0]}],
+                    "lookups": [{"type": 3, "flag": 0, "subtables": [{"coverage": [1], "alternates": [[3, 4, 5]]}]}]}}
+    d = os.path.join(vlib.HARN, "target", "c05fonts")
+    os.makedirs(d, exist_ok=True)
+    p = os.path.join(d, "rand-probe.ttf")
+    data = fontbuild.build(rec)
+    if not os.path.exists(p) or open(p, "rb").read() != data:
+        open(p, "wb").write(data)
+    return p
+
+
 def generate(shim):
     f = probe_font()
+    rp = rand_probe_font()
+    ro = vlib.run_lines(shim, [f"lcrand {rp} 0 54*6 p:54*3", f"lc {rp} ; push 54,54,54,54,54,54 ; shape - ; dump"], nproc=1)
+    try:
+        recycled = int(ro[0].split()[0])
+        gids = {int(g.split(":")[0]) for g in ro[1].split("dump=ok_6_")[1].split("_")}
+        if not gids <= {3, 4, 5}:
+            raise ValueError("the rand feature drew no alternate on the probe font")
+    except Exception as e:
+        raise vlib.BuildError(f"rand probe gave an outcome the model has no variant for: {[x[-200:] for x in ro]} ({e})")
     o = vlib.run_lines(shim, [f"lc {f} ; new ; shape - ; clear ; pushn 61 20000",
                               f"lc {f} ; new ; plan - ; clear ; pushn 61 20000",
                               f"lcrand {f} 0", DIRTY, FRESH], nproc=1)
@@ -87,6 +114,7 @@ def generate(shim):
     body = ("namespace RbModel.Gen.Lifecycle\n"
             f"def leaveAtEnd : Bool := {'true' if leave else 'false'}\n"
             f"def randomSeed : Nat := {seed}\n"
+            f"def randomSeedRecycled : Nat := {recycled}\n"
             "def bufferFields : List String := [" + ", ".join(f'"{x}"' for x in fields) + "]\n"
             "def clearKeeps : List String := [" + ", ".join(f'"{x}"' for x in clear_keeps) + "]\n"
             f"def invisibleWriters : Nat := {invisible_writers()}\n"
